@@ -263,6 +263,27 @@ def run(res, proof):
                 res.violation('file-parse-raises:' + type(e).__name__, {'text': txt}, type(e).__name__, 'equal results')
             finally:
                 os.unlink(p)
+        # how a file ends: no line end after the last statement, blanks or a comment after it, empty lines after it — the
+        # statements read are the same
+        for k, (lab, txt, exp) in enumerate([c for c in cases if c[0] == 'document'][:25 if quick else 300]):
+            base = txt.rstrip('\r\n \t')
+            if '#' in base.rsplit('\n', 1)[-1]:
+                continue
+            want = parse_seesaw_string(base + '\n')
+            for tail in ('', ' ', '\t ', ' # end', '#', '\n\n\n', '\n# end', '\r\n', '\n   ', ' # end\n# more'):
+                res.evaluations += 1
+                p = os.path.join(tmpdir, 'tail.ssw')
+                with open(p, 'w', newline='') as f:
+                    f.write(base + tail)
+                try:
+                    got = parse_seesaw_file(p)
+                    if got != want:
+                        res.violation('file-ending-changes-result', {'text': base + tail}, 'differs from the same statements with one line end', 'equal')
+                except Exception as e:
+                    res.violation('file-ending-raises:' + type(e).__name__, {'text': base + tail}, type(e).__name__, 'the same statements'); e = None
+                finally:
+                    os.unlink(p)
+                res.count('file_endings')
         good = [c for c in cases if c[2] is not None and c[0] != 'document' and '\n' not in c[1].strip('\n')]
         bad = [c for c in cases if c[2] is None]
         for k in range(min(len(bad), 60 if quick else 600)):
